@@ -61,6 +61,15 @@ type recv struct {
 	cmp  bslice.ComparableBSlice[int]
 	ord  bslice.OrderedBSlice[int]
 	calc bslice.CalculableBSlice[int]
+	// every slice handed over so far, at full capacity: the slice the wrapper was built from, then every returned slice
+	ret *[][]int
+}
+
+// newRecvOn builds the wrapper on s and retains s
+func newRecvOn(w int, s []int) recv {
+	r := newRecv(w, s)
+	r.ret = &[][]int{s[:cap(s)]}
+	return r
 }
 
 func newRecv(w int, s []int) recv {
@@ -572,8 +581,18 @@ func observe(o op, r recv) (term string, panicked bool, summary map[string]inter
 		summary["val_cap"] = cap(v.s)
 		summary["alias"] = alias
 	}
-	term = fmt.Sprintf("{| o_panic := %s; o_err := %s; o_val := %s; o_nil := %s; o_len := %s; o_win := %s; o_same := %s |}",
-		vhlib.Bool(p), vhlib.Bool(err), vt, vhlib.Bool(after == nil), vhlib.Nat(len(after)), zl(afterFull), vhlib.Bool(same))
+	if v.kind == "slice" {
+		*r.ret = append(*r.ret, v.s[:cap(v.s)])
+	}
+	rets := make([]string, len(*r.ret))
+	retSum := make([][]int, len(*r.ret))
+	for i, hnd := range *r.ret {
+		rets[i] = zl(hnd)
+		retSum[i] = append([]int{}, hnd...)
+	}
+	summary["retained"] = retSum
+	term = fmt.Sprintf("{| o_panic := %s; o_err := %s; o_val := %s; o_nil := %s; o_len := %s; o_win := %s; o_same := %s; o_ret := %s |}",
+		vhlib.Bool(p), vhlib.Bool(err), vt, vhlib.Bool(after == nil), vhlib.Nat(len(after)), zl(afterFull), vhlib.Bool(same), vhlib.List(rets))
 	return term, p, summary
 }
 
@@ -590,7 +609,7 @@ func runCase(wr *vhlib.Writer, stream string, w int, content []int, ops []op) {
 	vars := variantsFor(len(content))
 	rs := make([]recv, len(vars))
 	for k, v := range vars {
-		rs[k] = newRecv(w, mkVariant(content, v))
+		rs[k] = newRecvOn(w, mkVariant(content, v))
 	}
 	var steps, labels []string
 	var seen []interface{}
